@@ -29,7 +29,7 @@ STUBS = [
 ]
 OUTSIDE = ['decode inputs longer than 4 characters except the structured >= 8-token shapes',
            'the Cython decode (falcon/cyutil/uri.pyx)', 'lone surrogates', 'ports of more than 3 digits in parse_host']
-BUDGET = {'quick': 330, 'thorough': 2400}
+BUDGET = {'quick': 330, 'thorough': 900}
 
 UNRESERVED = 'ABCDEFGHIJKLMNOPQRSTUVWXYZabcdefghijklmnopqrstuvwxyz0123456789-._~'
 RESERVED = ":/?#[]@!$&'()*+,;="
